@@ -9,10 +9,8 @@ ID = 'C17'
 HERE = os.path.dirname(os.path.abspath(__file__))
 CASES = {'quick': 9000, 'thorough': 250000}
 PARALLEL = True
-# the typed-key stream (True / 1.0 elements after an equal int) exercises the lru_cache of
-# _join_elements; it is generated only when the tree under test keys that cache on the
-# stringified elements (regenerated fact) -- otherwise the cases live as finding witnesses
-TYPED_KEY_STREAM = None   # None: decide from the facts of the tree under test
+# the typed-key stream (True / 1.0 elements after an equal int) exercises the lru_cache of _join_elements
+TYPED_KEY_STREAM = True
 
 RULE = ('8 helpers (route/resource/static/current_route x url/path) on generated routes (literals/placeholders/star), '
         'elements, query (str / pair list / mapping; None, sequences, bytes, ints), anchor, scheme/host/port/app_url '
@@ -42,7 +40,7 @@ PIN_SPEC = {
                        'URLMethodsMixin._quoted_script_name', 'URLMethodsMixin.route_url', 'URLMethodsMixin.route_path',
                        'URLMethodsMixin.resource_url', 'URLMethodsMixin.resource_path', 'URLMethodsMixin.static_url',
                        'URLMethodsMixin.static_path', 'URLMethodsMixin.current_route_url',
-                       'URLMethodsMixin.current_route_path', '_join_elements'],
+                       'URLMethodsMixin.current_route_path', '_join_elements', '_join_quoted_elements'],
     'pyramid/encode.py': ['url_quote', 'quote_plus', 'urlencode'],
     'pyramid/traversal.py': ['quote_path_segment', '_join_path_tuple', 'ResourceURL', 'resource_path_tuple',
                              '_resource_path_list'],
@@ -967,9 +965,10 @@ def judge_gen(case, obs, spec):
             A = s.scheme + '://' + s.netloc
             if not s.scheme or '[' in s.netloc:
                 return None, 'authority not specified', None
-        if not U.startswith(A):
-            return False, 'scheme://authority is not %r' % A, 'url'
         rest = U[len(A):]
+        if not U.startswith(A) or rest[:1] not in ('/', '?', '#', ''):
+            return False, 'scheme://authority is not %r' % A, 'url'
+
         has_script = True
     if has_script:
         k = _script_prefix(rest, script)
